@@ -94,3 +94,18 @@ Theorem C04_declared_anisotropy_law : forall (scaled : bool) amin amax a sg (rg 
               /\ forall j, (j < k)%nat -> ~ (amin <= prop_ scaled a sg (rg (cu + j)%nat) <= amax).
 Proof. exact draw_anisotropy_in_range. Qed.
 Print Assumptions C04_declared_anisotropy_law.
+
+(* "independent draws from the declared distributions" also across re-draws: when the inner slope or the mass-to-light draw leaves the
+   interpolation range, draw_lens is re-entered with exactly the caller's sixteen arguments by name (every scatter included), so each
+   re-draw samples the SAME declared population (theorem of C09, re-proved here against this property's own copy of the source) *)
+Theorem C04_redraw_same_population : forall lo hi x ifu lam slam gp lifu sifu al be gi sgi agi lm slm alm gmean gsig glist rg cu,
+  (lo <= lm <= hi -> (hi < lm + alm * x + slm * rg (S cu) \/ lm + alm * x + slm * rg (S cu) < lo) ->
+   yields Gr FUEL (CFun src_LensDistribution_draw_lens) (Some (ld_obj lo hi x ifu false true)) []
+     (all_kws lam slam gp lifu sifu al be gi sgi agi lm slm alm gmean gsig glist) rg cu (VStr "<re-drawn>") (S (S cu))
+     (forwarded lam slam gp lifu sifu al be gi sgi agi lm slm alm gmean gsig glist))
+  /\ (lo <= gi <= hi -> (hi < gi + agi * x + sgi * rg (S cu) \/ gi + agi * x + sgi * rg (S cu) < lo) ->
+   yields Gr FUEL (CFun src_LensDistribution_draw_lens) (Some (ld_obj lo hi x ifu true false)) []
+     (all_kws lam slam gp lifu sifu al be gi sgi agi lm slm alm gmean gsig glist) rg cu (VStr "<re-drawn>") (S (S cu))
+     (forwarded lam slam gp lifu sifu al be gi sgi agi lm slm alm gmean gsig glist)).
+Proof. intros. split; intros; [apply redraw_m2l_forwards_everything | apply redraw_gamma_in_forwards_everything]; assumption. Qed.
+Print Assumptions C04_redraw_same_population.
